@@ -29,6 +29,7 @@ def c19_case(draw):
     n = draw(st.integers(2, 4))
     return {'kind': 'data', 'n': n, 'dtype': draw(st.sampled_from(['f8', 'f4', 'i8', 'i4'])),
             'readonly': draw(st.booleans()), 'view': draw(st.booleans()), 'sparse': draw(st.booleans()),
+            'forder': draw(st.sampled_from(['C', 'F', 'T'])),      # memory layout of 2-D arrays: C, Fortran, transposed view of a C array
             'vals': [draw(st.integers(-3, 3)) for _ in range(n * n + 3 * n)],
             'front': draw(st.sampled_from(['ro', 'dro'])), 'int': draw(st.booleans())}
 
@@ -136,6 +137,10 @@ def data_model(case):
             sl = tuple(slice(None, None, 2) for _ in a.shape)
             big[sl] = a
             a = big[sl]
+        if a.ndim == 2 and case.get('forder', 'C') == 'F':
+            a = np.asfortranarray(a)
+        elif a.ndim == 2 and case.get('forder', 'C') == 'T':
+            a = np.ascontiguousarray(a.T).T
         if allow_sparse and case['sparse'] and a.ndim == 2:
             s = sp.csr_matrix(a.astype(float))
             reg.append((name, s, s.copy()))
@@ -196,7 +201,7 @@ class C19(Prop):
             'before a later st() call must end in the same primal and dual programs (exactly equal, or - unused columns may be left '
             'behind - both solved to the same optimum by HiGHS/ECOS); every field of the formula is snapshotted before solve() and compared afterwards '
             '(in-place edits by solver interfaces); the states of numpy.random and random must be unchanged across formulate+solve. '
-            '(data) a model consuming user arrays of dtype float64/float32/int64/int32, strided views, read-only arrays and scipy '
+            '(data) a model consuming user arrays of dtype float64/float32/int64/int32, C / Fortran / transposed layouts, strided views, read-only arrays and scipy '
             'sparse matrices in bounds, rows, element-wise and matrix products, quad, norm weights, uncertainty/ambiguity sets and '
             'bi-affine terms: every array must be byte-identical after formulation and solve, and read-only arrays must be '
             'accepted. (process) digests of standard forms are recomputed in fresh interpreters with different PYTHONHASHSEED and '
@@ -213,7 +218,7 @@ class C19(Prop):
     def check(self, case):
         labels = ['kind:' + case['kind']]
         if case['kind'] == 'data':
-            labels += ['dtype:' + case['dtype'], 'front:' + case['front']] + [k for k in ('readonly', 'view', 'sparse', 'int') if case[k]]
+            labels += ['dtype:' + case['dtype'], 'front:' + case['front'], 'layout:' + case.get('forder', 'C')] + [k for k in ('readonly', 'view', 'sparse', 'int') if case[k]]
             try:
                 with quiet():
                     m, solver, reg = data_model(case)
